@@ -141,6 +141,13 @@ func matrixSpec(rng *lp.Rand) *bodySpec {
 	{                                                                                                                                                                            // recursion
 		g.env["Tree"] = &Schema{Type: "object", Props: []Prop{{"v", &Schema{Type: "integer", MinI: i64p(0)}, true}, {"kids", &Schema{Type: "array", Items: &Schema{Ref: "Tree"}, MaxItems: ip(2)}, false}}}
 		add(&Schema{Ref: "Tree"})
+		// the recursive members are declared before the constrained one; violations sit in nested levels
+		g.env["Cat"] = &Schema{Type: "object", Props: []Prop{
+			{"children", &Schema{Type: "array", Items: &Schema{Ref: "Cat"}}, false},
+			{"next", &Schema{Ref: "Cat"}, false},
+			{"byName", &Schema{Type: "object", AddMode: "schema", AddProps: &Schema{Ref: "Cat"}}, false},
+			{"name", &Schema{Type: "string", MinLen: ip(1), MaxLen: ip(4)}, true}}}
+		add(&Schema{Ref: "Cat"})
 	}
 	// many fields: required mask across byte boundaries
 	var many []Prop
@@ -254,7 +261,25 @@ func c03Instances(r *lp.Run, g *SchemaGen, s *Schema) (insts []any, kinds []stri
 		insts = append(insts, g.RandomJSON(2))
 		kinds = append(kinds, "random")
 	}
+	for _, t := range c03Fixed[s.Ref] {
+		insts = append(insts, parseJSON(t))
+		kinds = append(kinds, "fixed")
+	}
 	return
+}
+
+// hand-written instances for matrix schemas: violations in nested levels of a recursive type
+var c03Fixed = map[string][]string{
+	"Cat": {
+		`{"name":"a"}`, `{"name":"a","children":[{"name":"b"}],"next":{"name":"c"},"byName":{"k":{"name":"d"}}}`,
+		`{"name":"a","children":[{"name":""}]}`, `{"name":"a","children":[{"name":"b","children":[{"name":"toolong"}]}]}`,
+		`{"name":"a","next":{"name":""}}`, `{"name":"a","next":{"name":"b","next":{"name":""}}}`, `{"name":"a","next":{"children":[]}}`,
+		`{"name":"a","byName":{"k":{"name":""}}}`, `{"name":"a","byName":{"k":{"name":"b","byName":{"j":{"name":"toolong"}}}}}`,
+		`{"name":"a","children":[{"name":"b"},{"name":"c","next":{"name":"12345"}}]}`, `{"name":""}`,
+	},
+	"Tree": {
+		`{"v":1,"kids":[{"v":-1}]}`, `{"v":1,"kids":[{"v":1,"kids":[{"v":1},{"v":1},{"v":1}]}]}`, `{"v":1,"kids":[{"v":1,"kids":[{"v":0}]}]}`,
+	},
 }
 
 func c03Op(r *lp.Run, drv *gc.Driver, b *bodySpec, op bodyOp) {
